@@ -33,6 +33,9 @@ type boundsCtx struct {
 	r    *core.Report
 	rule string
 	extra []a5Tactic
+	// readAt is where the element is read: the expression itself, or the statement
+	// that took a snapshot of it (cur := acc[i])
+	readAt ast.Node
 }
 
 func a5Check(r *core.Report, rule string, f *core.Func, extra ...a5Tactic) int {
@@ -94,6 +97,14 @@ func (bc *boundsCtx) isLenOf(e ast.Expr, base ast.Expr) bool {
 
 func (bc *boundsCtx) needOfIndex(base, idx ast.Expr, slice bool) needLen {
 	idx = ast.Unparen(idx)
+	// a local that is defined once as `len(base) - k` / a constant stands for its definition
+	if v := core.VarOf(bc.info, idx); v != nil {
+		if d, ok := core.SingleDef(bc.info, bc.f.Root().Body, v); ok && (d.Kind == "define" || d.Kind == "var") && d.Index < 0 {
+			if b, isBin := ast.Unparen(d.Rhs).(*ast.BinaryExpr); isBin && b.Op == token.SUB && bc.isLenOf(b.X, base) {
+				idx = ast.Unparen(d.Rhs)
+			}
+		}
+	}
 	if c, ok := core.ConstInt(bc.info, idx); ok {
 		if slice {
 			return needLen{Min: c, Slice: true}
@@ -142,6 +153,20 @@ func (bc *boundsCtx) obligation(e ast.Expr, base ast.Expr, need needLen) {
 	if how, ok := bc.byGuard(facts, base, need); ok {
 		bc.r.OK(bc.rule, bc.f, construct, e.Pos(), how)
 		return
+	}
+	// the base may be a snapshot of an element: cur := runes[i]
+	bc.readAt = e
+	if ab, def := bc.aliasOf(base); ab != nil {
+		need2 := need
+		if need.LenRel || need.Idx == nil {
+			// len(cur) == len(runes[i]) at the snapshot: re-express the requirement on the element
+			if how, ok := bc.byGuard(bc.g.FactsAt(bc.g.PointOf(def)), ab, need2); ok {
+				bc.r.OK(bc.rule, bc.f, construct, e.Pos(), how+" (through the snapshot "+core.ExprStr(base)+" := "+core.ExprStr(ab)+")")
+				return
+			}
+		}
+		base = ab
+		bc.readAt = def
 	}
 	if how, ok := bc.byLoop(e, base, need, facts); ok {
 		bc.r.OK(bc.rule, bc.f, construct, e.Pos(), how)
@@ -404,4 +429,23 @@ func (bc *boundsCtx) madeWithLenOf(base ast.Expr, x ast.Expr) bool {
 		return false
 	}
 	return bc.isLenOf(c.Args[1], x)
+}
+
+// aliasOf: base is a local variable whose only definition is a snapshot of an
+// indexed element (`cur := acc[i]`, also in a tuple define); it returns the
+// element expression and the defining statement. The LenRel form of the
+// obligation (x[len(x)-1]) carries over because a snapshot has the element's length.
+func (bc *boundsCtx) aliasOf(base ast.Expr) (ast.Expr, ast.Node) {
+	v := core.VarOf(bc.info, base)
+	if v == nil {
+		return nil, nil
+	}
+	d, ok := core.SingleDef(bc.info, bc.f.Root().Body, v)
+	if !ok || d.Index >= 0 || (d.Kind != "define" && d.Kind != "var") {
+		return nil, nil
+	}
+	if ix, isIx := ast.Unparen(d.Rhs).(*ast.IndexExpr); isIx && bc.indexable(ix.X) {
+		return ix, d.Stmt
+	}
+	return nil, nil
 }
